@@ -114,6 +114,8 @@ class Wire:
 
     def release_at(self, direction, idx):
         """Deliver one held packet out of order."""
+        if idx >= len(self.held[direction]):
+            return          # fewer packets than expected: the oracle's job
         pkt = self.held[direction].pop(idx)
         was = self.hold[direction]
         self.hold[direction] = False
